@@ -305,6 +305,8 @@ func (x *Exec) external(st *State, site ssa.Instruction, callee *ssa.Function, c
 		st.add(Eq(x.slenOf(st, old), Add(x.slenOf(st, line), x.slenOf(st, rest))))
 		st.add(Eq(App("dw", SInt, old), Add(App("dw", SInt, line), App("dw", SInt, rest))))
 		st.add(Implies(Eq(errv, Zero), Ge(x.slenOf(st, line), One)))
+		theU.DeclFunc("endswith", SBool, SStr, SInt)
+		st.add(Implies(Eq(errv, Zero), App("endswith", SBool, line, at(1)))) // a line returned without an error ends with the delimiter
 		st.add(Implies(Neq(errv, Zero), Eq(x.slenOf(st, rest), Zero)))
 		x.bufSetT(st, at(0), bbT, rest)
 		x.setResult(st, res, Val{Tup: []Val{{T: line}, {T: errv}}})
